@@ -94,6 +94,7 @@ fn size_code(s: Size) -> u64 {
         Size::One => 1,
         Size::Five => 5,
         Size::Chunks => 3,
+        Size::Large => 12,
     }
 }
 fn code_size(c: u64) -> Size {
@@ -101,6 +102,7 @@ fn code_size(c: u64) -> Size {
         0 => Size::Empty,
         1 => Size::One,
         5 => Size::Five,
+        12 => Size::Large,
         _ => Size::Chunks,
     }
 }
